@@ -13,13 +13,14 @@ def absIndex (idx : Int) (len : Nat) : Option Int :=
   if !validIndex idx len then none
   else if idx < 0 then some (len + idx) else some idx
 
+def getOrIndexError {α : Type} : Option α → PyM α
+  | some x => .ok x
+  | none => .error .indexError
+
 /-- Python `lst[idx]` with negative wrap-around and `IndexError` -/
 def pyIndex {α : Type} (l : List α) (idx : Int) : PyM α :=
   let j : Int := if idx < 0 then l.length + idx else idx
-  if j < 0 then .error .indexError else
-  match l[j.toNat]? with
-  | some x => .ok x
-  | none => .error .indexError
+  if j < 0 then .error .indexError else getOrIndexError l[j.toNat]?
 
 /-- Python slice `lst[start:stop]` with `stop ≥ 0` -/
 def pySlice {α : Type} (l : List α) (start stop : Int) : List α :=
